@@ -14,7 +14,7 @@ PROPERTY = "C03"
 RULE = ("For a base search (structure, pattern, atol) the match set of the real search is recorded and compared, after "
         "renaming, with the match sets recorded for transformed inputs: whole structure shifted by a random vector "
         "and wrapped; atoms permuted; pattern rigidly rotated+translated; every valid hint class (both axis points, "
-        "+orientation point, exactly one axis point under either keyword incl. index 0, orientation point alone); "
+        "+orientation point, exactly one axis point under either keyword incl. index 0, one axis point plus an orientation point with the axis index above and below it, orientation point alone); "
         "hint triples whose orientation atom is only 1e-4..1e-3 A off the axis, on exact (noise-free) copies; "
         "other RNG seeds and stubbed choice schedules; a x b x c supercells (each clear unit-cell group must appear "
         "exactly a*b*c times). A group is compared only if it is clear: the proper Kabsch fit of the pattern onto the "
